@@ -466,9 +466,19 @@ func (g *bodyGen) valueJSON(t projgen.TypeRef, validate string, depth int) strin
 			// one element of a top-level slice of structs is to violate a field validator
 			n = g.r.Range(1, 3)
 			victim = g.r.Intn(n)
+			if t.ElemPtr {
+				// a nil element in front of the violating one
+				n = g.r.Range(2, 3)
+				victim = n - 1
+			}
 		}
+		et.ElemPtr = false
 		parts := make([]string, n)
 		for i := range parts {
+			if t.ElemPtr && i != victim && (g.r.Chance(1, 2) || (victim > 0 && i == victim-1)) {
+				parts[i] = "null" // a nil element of a slice of pointers
+				continue
+			}
 			prev := g.elemTurn
 			g.elemTurn = i == victim
 			parts[i] = g.valueJSON(et, "", depth+1)
